@@ -175,6 +175,14 @@ pub fn exec_pro(case: &[u64]) -> L {
     let mut res = vec![out.len() as u64]; for o in out { res.push(o.len() as u64); res.extend(o); } res
 }
 
+// a valid encoding of `kind` addressed to `own` whose value tag / flag byte is then made invalid (right code, right size, undecodable content);
+// for kinds without such a byte, a valid encoding with the error flag set
+fn bad_variant(r: &mut Rng, kind: u64, own: u16) -> Packet {
+    let mut p = ref_encode(&gen_event(r, kind, 12)); p.device_address = own;
+    match kind { 6 | 14 => { if p.data.len() > 5 { p.data[5] = r.range(6, 255) as u8; } } 13 => { if p.data.len() > 9 { p.data[9] = r.range(6, 255) as u8; } }
+                 12 => { if p.data.len() > 6 { p.data[6] = r.range(4, 255) as u8; } } _ => { p.is_error = true; } }
+    p
+}
 fn other_addr(r: &mut Rng, own: u16) -> u16 { loop { let a = r.u16b() as u16; if a != own { return a; } } }
 fn small_packet(r: &mut Rng, addr: u16) -> Packet { let n = r.below(12) as usize; Packet { is_error: r.chance(1, 5), device_address: addr, data: r.bytes(n) } }
 fn push_list(l: &mut L, body: &[u64]) { l.push(body.len() as u64); l.extend_from_slice(body); }
@@ -238,7 +246,8 @@ pub fn gen_pro(r: &mut Rng, thorough: bool, cx: &mut Ctx) {
                     let mut gets: Vec<L> = vec![];
                     for _ in 0..r.below(6) {
                         let mut g: L = vec![0];
-                        let pk = match r.below(5) {
+                        let pk = match r.below(6) {
+                            5 => bad_variant(r, kind, own),
                             0 | 1 => { let mut p = ref_encode(&gen_event(r, kind, 12)); if kind != 1 && kind != 5 { p.device_address = if r.coin() { own } else { 0xffff }; } else if r.coin() { p.device_address = own; } p }
                             2 => { let k2 = r.below(16); let mut p = ref_encode(&gen_event(r, k2, 12)); p.device_address = own; p }
                             _ => { let a = if r.coin() { own } else { other_addr(r, own) }; small_packet(r, a) }
@@ -337,7 +346,8 @@ pub fn gen_exc(r: &mut Rng, thorough: bool, cx: &mut Ctx) {
             let ng = if long > 0 { long } else { r.below(13) }; let mut gets: Vec<L> = vec![];
             for gi in 0..ng {
                 let mut g: L = vec![0];
-                let pk = match if long > 0 && gi + 3 < ng { 4 + r.below(5) } else { r.below(9) } {
+                let pk = match if long > 0 && gi + 3 < ng { 4 + r.below(6) } else { r.below(10) } {
+                    9 => bad_variant(r, kind, own),
                     0 | 1 | 2 => { let mut p = ref_encode(&gen_event(r, kind, 20)); if kind != 1 && kind != 5 { p.device_address = match r.below(3) { 0 => own, 1 => 0xffff, _ => other_addr(r, own) }; } else if r.coin() { p.device_address = own; } p }
                     3 => { let k2 = r.below(16); let mut p = ref_encode(&gen_event(r, k2, 20)); p.device_address = own; p }
                     4 => { let mut p = ref_encode(&gen_event(r, kind, 20)); p.device_address = own; p.is_error = true; p }
